@@ -142,11 +142,14 @@ def run(c) -> CaseResult:
                 pg = prune_non_float_tensors(graph)
             elif mode == "samescale":
                 exp = model(graph, mode, rtol)
-                pg = prune_same_scale_tensors(graph, rtol)
+                pg = prune_same_scale_tensors(graph, rtol) if c["seed"] % 2 else prune_same_scale_tensors(graph=graph, rtol=rtol)
             else:
                 work = copy.deepcopy(graph)   # selective pruning works in place: give it its own copy
                 exp = model(work, mode, None, tg)
-                pg = prune_selected_nodes(work, tg)
+                # `targets` is documented as an Iterable: tuple / list / set / one-shot generator / keyword
+                sp = c["seed"] % 5
+                tg_arg = [tg, list(tg), set(tg), (t_ for t_ in tg), tg][sp]
+                pg = prune_selected_nodes(work, targets=tg_arg) if sp == 4 else prune_selected_nodes(work, tg_arg)
         except Exception as e:  # noqa: BLE001
             res.fail(exc_bucket(f"C19.raises:{tag}", e)[:300], f"{type(e).__name__}: {str(e)[:300]}\n{src}")
             continue
